@@ -775,9 +775,7 @@ impl XmlAttribute {
         self.element()
             .as_ref()?
             .borrow()
-            .declaration_att_list()?
-            .borrow()
-            .atts
+            .declaration_att_defs()
             .iter()
             .find(|v| equal_qname(v.qname(), self.qname()))
             .cloned()
@@ -2258,15 +2256,13 @@ impl Element for XmlElement {
     fn attributes(&self) -> UnorderedSet<XmlNode<XmlAttribute>> {
         let mut items = self.attributes_specified();
 
-        if let Some(attrs) = self.declaration_att_list() {
-            for attr in attrs.borrow().atts.as_slice() {
-                if attr.value != XmlDeclarationAttDefault::Implied
-                    && !items
-                        .iter()
-                        .any(|v| equal_qname(v.borrow().qname(), attr.qname()))
-                {
-                    items.push(XmlAttribute::new_from_declaration(attr, self.context()));
-                }
+        for attr in self.declaration_att_defs().as_slice() {
+            if attr.value != XmlDeclarationAttDefault::Implied
+                && !items
+                    .iter()
+                    .any(|v| equal_qname(v.borrow().qname(), attr.qname()))
+            {
+                items.push(XmlAttribute::new_from_declaration(attr, self.context()));
             }
         }
 
@@ -2505,26 +2501,20 @@ impl XmlElement {
     }
 
     fn attributes_id(&self) -> Vec<XmlNode<XmlAttribute>> {
-        if let Some(attlist) = self.declaration_att_list() {
-            let ids = attlist
-                .borrow()
-                .atts
-                .iter()
-                .filter(|v| v.ty == XmlDeclarationAttType::Id)
-                .cloned()
-                .collect::<Vec<XmlDeclarationAttDef>>();
-            self.attributes
-                .iter()
-                .filter_map(|v| v.as_attribute())
-                .filter(|v| !v.borrow().namespace())
-                .filter(|v| {
-                    ids.iter()
-                        .any(|i| equal_qname(v.borrow().qname(), i.qname()))
-                })
-                .collect()
-        } else {
-            vec![]
-        }
+        let ids = self
+            .declaration_att_defs()
+            .into_iter()
+            .filter(|v| v.ty == XmlDeclarationAttType::Id)
+            .collect::<Vec<XmlDeclarationAttDef>>();
+        self.attributes
+            .iter()
+            .filter_map(|v| v.as_attribute())
+            .filter(|v| !v.borrow().namespace())
+            .filter(|v| {
+                ids.iter()
+                    .any(|i| equal_qname(v.borrow().qname(), i.qname()))
+            })
+            .collect()
     }
 
     fn attributes_specified(&self) -> Vec<XmlNode<XmlAttribute>> {
@@ -2535,16 +2525,22 @@ impl XmlElement {
             .collect()
     }
 
-    fn declaration_att_list(&self) -> Option<XmlNode<XmlDeclarationAttList>> {
-        self.context
-            .document()
-            .borrow()
-            .document_declaration()?
-            .borrow()
-            .attributes()
-            .iter()
-            .find(|v| equal_qname(v.borrow().qname(), self.qname()))
-            .cloned()
+    /// Attribute definitions of every attribute-list declaration for this element type,
+    /// merged; the first definition of an attribute name is binding (XML 1.0 3.3).
+    fn declaration_att_defs(&self) -> Vec<XmlDeclarationAttDef> {
+        let mut defs: Vec<XmlDeclarationAttDef> = vec![];
+        if let Some(declaration) = self.context.document().borrow().document_declaration() {
+            for att_list in declaration.borrow().attributes().iter() {
+                if equal_qname(att_list.borrow().qname(), self.qname()) {
+                    for def in att_list.borrow().atts.as_slice() {
+                        if !defs.iter().any(|v| equal_qname(v.qname(), def.qname())) {
+                            defs.push(def.clone());
+                        }
+                    }
+                }
+            }
+        }
+        defs
     }
 
     fn find_nameapce_uri(&self, prefix: &str) -> error::Result<Option<NamespaceUri>> {
